@@ -2,6 +2,6 @@
 # usage: allchecks.sh <patch> -> lists which of the 19 checks fire on a patched copy
 d=$(mktemp -d /tmp/gfall.XXXX); rsync -a --exclude .git /repo/ $d/; (cd $d && patch -p1 -s < "$1") || { echo PATCHFAIL; rm -rf $d; exit; }
 fired=""
-for i in $(seq -w 1 19); do out=$(/verif/checker/bin/gfcheck -prop C$i -repo $d -evidence $d/.ev/C$i.json 2>&1); if echo "$out" | grep -q "VIOLATION"; then fired="$fired C$i"; echo "$out" | grep -E "VIOLATED|UNDECIDED|BROKEN|LOAD-ERROR" | head -2 | sed "s#$d/##" | cut -c1-230; fi; done
+for i in $(seq -w 1 19); do out=$(${GFBIN:-/verif/checker/bin/gfcheck} -prop C$i -repo $d -evidence $d/.ev/C$i.json 2>&1); if echo "$out" | grep -q "VIOLATION"; then fired="$fired C$i"; echo "$out" | grep -E "VIOLATED|UNDECIDED|BROKEN|LOAD-ERROR" | head -2 | sed "s#$d/##" | cut -c1-230; fi; done
 echo "FIRED:$fired"
 rm -rf $d
